@@ -15,7 +15,8 @@ RULE = ("Hypothesis-generated Deferred histories: a Deferred with 0..3 callbacks
         "language, then (for the history generator) fired or given further callbacks after matching; oracle = a "
         "model of the callback chain plus the reference predicates. Second generator: test programs whose stages "
         "return already-fired Deferreds under SynchronousDeferredRunTest vs. the same program returning/raising "
-        "directly under RunTest (differential). Non-trivial: callbacks attached before matching, or a "
+        "directly under RunTest (differential). Also: a callback attached between two matches of one Deferred, an errback after a match, cleanups with positional and keyword arguments and KeyboardInterrupt / SystemExit / DeferredNotFired / falsy errors as stages of the runner differential (including what run() raises). "
+        "Non-trivial: callbacks attached before matching, or a "
         "match-then-fire history, or a nested inner matcher; distinct = distinct canonical spec.")
 ASSUMPTIONS = [
     "a Deferred whose chain is paused on an unfired inner Deferred has no result yet and is classified as such",
